@@ -1,10 +1,21 @@
 (* Property C18 - vectored offer equals offering the concatenation.  Statements only; proofs in Proofs/BulkProofs.v and
    Proofs/C18Statements.v.  The model is that of the repaired loops (fixes/C18-bulk.diff); the loops the repository had
    before are modelled by the *_asis definitions and refuted below. *)
-Require Import V.Base.MachineInt V.Generated.GenConsts V.Model.Descriptor V.Model.LogBase V.Model.Appender
-               V.Model.ExclAppender V.Model.Publication
-               V.Proofs.AppenderProofs V.Proofs.PublicationProofs V.Proofs.BulkProofs V.Proofs.C04Proofs V.Proofs.C04Statements
-               V.Oracle.C04Oracle V.Oracle.C18Oracle V.Proofs.C18Statements.
+Require Import V.Base.MachineInt.
+Require Import V.Generated.GenConsts.
+Require Import V.Model.Descriptor.
+Require Import V.Model.LogBase.
+Require Import V.Model.Appender.
+Require Import V.Model.ExclAppender.
+Require Import V.Model.Publication.
+Require Import V.Proofs.AppenderProofs.
+Require Import V.Proofs.PublicationProofs.
+Require Import V.Proofs.BulkProofs.
+Require Import V.Proofs.C04Proofs.
+Require Import V.Proofs.C04Statements.
+Require Import V.Oracle.C04Oracle.
+Require Import V.Oracle.C18Oracle.
+Require Import V.Proofs.C18Statements.
 Open Scope Z_scope.
 
 (* offer_bulk bufs = offer (concat bufs): same result, same resulting state (hence the same frames, flags, payload bytes,
